@@ -902,6 +902,123 @@ fn header_file_cases(report: &mut Report) {
     report.violations.extend(results.into_iter().flatten());
 }
 
+
+// ------------------------------------------------------------------------------------------------ an output folder that does not exist yet
+
+/// The output folder is created by the first pass (nothing foreign in it). Every sequence of up to 2 removals of files and
+/// directories; after each pass the files AND the directories below the output folder are those of a fresh run
+fn new_output_folder_cases(report: &mut Report) {
+    #[derive(Clone, Copy, Debug, PartialEq)]
+    enum Ev {
+        RemoveDeep,
+        RemoveSub,
+        RemoveFile,
+        RemoveOther,
+    }
+    let alphabet = [Ev::RemoveDeep, Ev::RemoveSub, Ev::RemoveFile, Ev::RemoveOther];
+    let mut histories: Vec<Vec<Ev>> = alphabet.iter().map(|e| vec![*e]).collect();
+    for a in alphabet {
+        for b in alphabet {
+            if a != b {
+                histories.push(vec![a, b]);
+            }
+        }
+    }
+    fn tree_of(root: &std::path::Path) -> BTreeMap<String, Option<String>> {
+        fn rec(dir: &std::path::Path, root: &std::path::Path, out: &mut BTreeMap<String, Option<String>>) {
+            if let Ok(rd) = std::fs::read_dir(dir) {
+                for e in rd.flatten() {
+                    let p = e.path();
+                    let rel = p.strip_prefix(root).map(|r| r.to_string_lossy().replace('\\', "/")).unwrap_or_default();
+                    if p.is_dir() {
+                        out.insert(rel, None);
+                        rec(&p, root, out);
+                    } else {
+                        out.insert(rel, std::fs::read_to_string(&p).ok());
+                    }
+                }
+            }
+        }
+        let mut out = BTreeMap::new();
+        if root.join("out").is_dir() {
+            out.insert("out".to_owned(), None);
+        }
+        rec(&root.join("out"), root, &mut out);
+        out
+    }
+    let options = |root: &std::path::Path| Options::new(root.join("src")).with_output(root.join("out")).with_configuration_at(root.join(".darklua.json"));
+    let write_all = |root: &std::path::Path, files: &BTreeMap<String, String>| {
+        for (p, c) in files {
+            let full = root.join(p);
+            let _ = std::fs::create_dir_all(full.parent().unwrap());
+            let _ = std::fs::write(full, c);
+        }
+    };
+    let results: Vec<Option<Violation>> = histories
+        .par_iter()
+        .map(|history| {
+            let dir = tempfile::tempdir().ok()?;
+            let root = dir.path().to_path_buf();
+            let mut files: BTreeMap<String, String> = BTreeMap::new();
+            for p in ["src/a.lua", "src/sub/b.lua", "src/sub/deep/c.lua", "src/sub/deep/d.lua", "src/other/e.lua"] {
+                files.insert(p.into(), format!("return '{}'\n", p));
+            }
+            files.insert(".darklua.json".into(), "{rules: []}".into());
+            write_all(&root, &files);
+            let res = Resources::from_file_system();
+            let mut tree = match guarded({ let res = res.clone(); let o = options(&root); move || darklua_core::process(&res, o) }) {
+                Ok(Ok(t)) => t,
+                _ => return Some(Violation { finding: None, summary: "the first pass into a new output folder fails".to_owned(), replay: json!({"kind": "new output folder"}) }),
+            };
+            for (i, ev) in history.iter().enumerate() {
+                let target = match ev {
+                    Ev::RemoveDeep => "src/sub/deep",
+                    Ev::RemoveSub => "src/sub",
+                    Ev::RemoveFile => "src/sub/b.lua",
+                    Ev::RemoveOther => "src/other/e.lua",
+                };
+                let full = root.join(target);
+                if full.is_dir() {
+                    let _ = std::fs::remove_dir_all(&full);
+                } else if full.is_file() {
+                    let _ = std::fs::remove_file(&full);
+                } else {
+                    continue;
+                }
+                files.retain(|p, _| p != target && !p.starts_with(&format!("{}/", target)));
+                tree.remove_source(&full);
+                let r = res.clone();
+                let o = options(&root);
+                let (t, outcome) = match guarded(move || { let r2 = tree.process(&r, o).map_err(|e| e.to_string()); (tree, r2) }) {
+                    Ok(x) => x,
+                    Err(p) => return Some(Violation { finding: None, summary: format!("PANIC in the pass after {:?}: {}", &history[..=i], p), replay: json!({"kind": "new output folder", "history": format!("{:?}", history)}) }),
+                };
+                tree = t;
+                let fresh_dir = tempfile::tempdir().ok()?;
+                write_all(fresh_dir.path(), &files);
+                let fr = Resources::from_file_system();
+                let fo = options(fresh_dir.path());
+                let _ = guarded(move || darklua_core::process(&fr, fo));
+                let want = tree_of(fresh_dir.path());
+                let got = tree_of(&root);
+                if want != got || outcome.is_err() {
+                    let mut diff: Vec<String> = want.iter().filter(|(k, v)| got.get(*k) != Some(v)).map(|(k, v)| format!("{}: fresh run {:?}, worker left {:?}", k, v, got.get(k))).collect();
+                    diff.extend(got.iter().filter(|(k, _)| !want.contains_key(*k)).map(|(k, v)| format!("{} ({}) is not left by a fresh run", k, if v.is_none() { "a directory" } else { "a file" })));
+                    return Some(Violation {
+                        finding: None,
+                        summary: format!("output folder created by the first pass; after the removals {:?} the output tree differs from a fresh run ({:?}): {}", &history[..=i], outcome.err(), diff.join("; ")),
+                        replay: json!({"kind": "new output folder", "history": format!("{:?}", history), "differences": diff}),
+                    });
+                }
+            }
+            None
+        })
+        .collect();
+    report.evaluations += histories.len() as u64;
+    report.set("new_output_folder_histories", histories.len() as u64);
+    report.violations.extend(results.into_iter().flatten());
+}
+
 // ------------------------------------------------------------------------------------------------ configuration switches
 
 /// every ordered pair of variants of one rule (the property menus of C19): a worker that processed the project with the first
@@ -1132,6 +1249,7 @@ pub fn run(tier: Tier) -> Report {
     watch_binary_cases(tier, &mut report);
     config_switch_cases(&mut report);
     header_file_cases(&mut report);
+    new_output_folder_cases(&mut report);
     report.set("seconds_watch_process", t0.elapsed().as_secs_f64());
     report.traces_validated = report.transitions;
     report.exhaustive = false;
